@@ -1,4 +1,5 @@
 """C16 — density bins account for all free area; every cell is in exactly one bin."""
+GEN = ["GeomFns"]
 VARIANT = "san"
 # the skeleton steps are private members of DensityLegalizer (rebisect, reoptimize, improveRectangle,
 # improveX/YTransport); the harness reaches them without touching the sources
@@ -40,6 +41,7 @@ _PASSES_NO_H4 = (
     "direct oracle), on explored runs (counted: pass_checked_by_snapshot_only).  With the hook applied every call of every "
     "explored pass is checked against the schedule (see the hook's .msg).")
 PARTIAL = [
+    "geometry_layer_translated: the shared Rect / Cell geometry this model is written in (Rectangle ctor / width / height / area / intersects / intersection, isTurn, isFixed / isObstruction / placedWidth / placedHeight / placement / area, the loop of Circuit::rowHeight for every circuit, the loop of Circuit::computePlacementArea for row coordinates within the int range (its INT_MAX / INT_MIN sentinels)) is regenerated from the clang AST of the C++ function bodies on every run (Gen/GeomFns.lean) and proved equal to the hand-written definitions; the translator's representation map (array-of-fields <-> Cell record, rows_ <-> list of Row) is stated, not derived; this is a tie, not a clause of the property",
     "rough-legalization calls: the theorem `alloc_inv` covers every sequence of refine/coarsen and *skeleton* steps "
     "(`redistribute` and its instances rebisect/reoptimize/improveX/YTransport for every permutation, split index and "
     "assignment vector).  That the real `rebisect`/`reoptimize`/`improveRectangle`/`improveX/YTransport` are instances of "
@@ -83,7 +85,8 @@ LEVEL_TEXT = ("Lean 4 theorems over an executable model of computeSubdivisions, 
               "fromIspdCircuit's regions are proved valid/disjoint/inside the limits on top of C15's interval lemmas; the model is tied to the C++ by an exact differential stream (limits, capacities, hierarchy levels, "
               "every allocation after every step; with the op-log hook H4 every private call of every public pass against the schedule) and the property statement itself is evaluated by independent C++ on every explored state")
 LEVEL_NOTE = ("Trusted: Lean kernel (axioms propext/Classical.choice/Quot.sound only), the hand-written model's tie to the code "
-              "(differential, bounded by the generator), unbounded Int for C++ int, the skeleton abstraction of the float-driven passes "
+              "(differential, bounded by the generator), tools/translate.py + clang-14 AST for Gen/GeomFns (shared geometry layer, rowHeight, "
+              "computePlacementArea, proved equal to the hand-written ones: geometry_layer_translated), unbounded Int for C++ int, the skeleton abstraction of the float-driven passes "
               "(checked per explored call, not proved), the hand-written schedule model of the passes (checked per explored call through hook H4 "
               "when the tree has it, otherwise not tied).")
 TECHNIQUE = "Lean 4 proof (partition sums, induction over op lists) + model/implementation correspondence stream + independent oracle"
